@@ -4,11 +4,14 @@ import json, os, glob
 V = os.path.dirname(os.path.dirname(os.path.abspath(__file__)))
 props = [json.loads(l) for l in open(os.path.join(V, "properties.jsonl"))]
 m = json.load(open(os.path.join(V, "MANIFEST.json")))
+claimed_file = os.path.join(V, "checks", "claimed.txt")
+claimed = set(open(claimed_file).read().split()) if os.path.exists(claimed_file) else None
 frs = {}
 for f in sorted(glob.glob(os.path.join(V, "checks", "C*.manifest.json"))):
     fr = json.load(open(f))
     if os.path.exists(os.path.join(V, "checks", fr["property_id"] + ".py")) and os.path.exists(os.path.join(V, "coq", "props", fr["property_id"] + ".v")):
-        frs[fr["property_id"]] = fr
+        if claimed is None or fr["property_id"] in claimed:
+            frs[fr["property_id"]] = fr
 na_reasons = {}
 if os.path.exists(os.path.join(V, "checks", "not_applicable.json")):
     na_reasons = json.load(open(os.path.join(V, "checks", "not_applicable.json")))
